@@ -291,6 +291,7 @@ type violationReport struct {
 
 type summary struct {
 	Evaluations  int               `json:"evaluations"`
+	Runs         int               `json:"runs"`
 	Nontrivial   int               `json:"nontrivial"`
 	Fingerprints []uint64          `json:"fingerprints"`
 	EventFPs     []uint64          `json:"event_fps"`
@@ -424,9 +425,19 @@ type tierSpec struct {
 var tiers = map[string]map[string]tierSpec{
 	"quick": {
 		"default": {3200, 200, 150},
+		"C01":     {40000, 2500, 120},
+		"C04":     {4000, 250, 150},
+		"C08":     {480, 30, 150},
+		"C10":     {8000, 500, 120},
+		"C17":     {32000, 2000, 120},
 	},
 	"thorough": {
 		"default": {200000, 400, 1200},
+		"C01":     {2000000, 5000, 1200},
+		"C04":     {150000, 400, 1500},
+		"C08":     {24000, 60, 1500},
+		"C10":     {600000, 1000, 1200},
+		"C17":     {2000000, 4000, 1200},
 	},
 }
 
@@ -452,7 +463,14 @@ var stubsCommon = []string{
 	"service implementations and authenticators: harness code",
 }
 
-var props = map[string]propInfo{}
+var props = map[string]propInfo{
+	"C01": {level: "exploration",
+		rule: "one case = a sequence of 1-6 messages (edge-biased header fields, all eight types, payload sizes from 0 to exactly the size limit) optionally followed by a header that must be refused (wrong magic/version/type, over-limit size), written with the real Message.Write and read back with the real Message.Read over a scripted stream whose fragmentation (greedy / byte-at-a-time / random) and end (EOF alone or together with the last bytes) are drawn per case. Non-trivial: at least two messages or a read path fragmented into more reads than two per message; distinct = distinct (wire bytes, fragmentation mode, end mode) hashes",
+		assume: []string{"readers and writers obey the io.Reader/io.Writer contracts", "the reference codec (harness) states the documented layout correctly"}},
+	"C08": {level: "fault_enumeration",
+		rule: "encodings are sampled (message, dynamic value incl. opaque composite signatures, typed data for generated signatures, meta-object, object reference, service info, capability map, Go values through the reflection codec); an encoding counts only if the full decode succeeds and consumes every byte. For each, EVERY cut position 0<=k<len (sampled only above 4096 bytes, reported by the probe cuts-sampled-not-exhaustive) x {EOF, last bytes together with EOF, ErrUnexpectedEOF, connection reset} x {greedy, random fragmentation} must be refused. evaluations = truncated decodes; distinct_nontrivial = distinct (kind, encoding bytes)",
+		assume: []string{"decoders are deterministic functions of the bytes read so far"}},
+}
 
 func info(prop string) propInfo {
 	if p, ok := props[prop]; ok {
@@ -685,9 +703,9 @@ func cmdCheck(args []string) int {
 	}
 	inconPct := 0.0
 	if total.Evaluations > 0 {
-		inconPct = 100 * float64(total.Inconclusive) / float64(total.Evaluations)
+		inconPct = 100 * float64(total.Inconclusive) / float64(total.Runs)
 	}
-	fmt.Printf("qsim: %s %s seed=%d runs=%d nontrivial=%d distinct-schedules=%d steps=%d sim-seconds=%.0f inconclusive=%d (%.2f%%) wall=%.1fs\n",
+	fmt.Printf("qsim: %s %s seed=%d evaluations=%d nontrivial=%d distinct-schedules=%d steps=%d sim-seconds=%.0f inconclusive=%d (%.2f%%) wall=%.1fs\n",
 		prop, *tier, seed, total.Evaluations, total.Nontrivial, len(fps), total.Steps, total.SimSeconds, total.Inconclusive, inconPct, wall)
 	if len(total.Fired) > 0 {
 		fmt.Printf("qsim: faults fired: %s\n", fmtMap(total.Fired))
@@ -742,6 +760,7 @@ func fmtMap(m map[string]int) string {
 
 func merge(t *summary, s *summary, fps, efps map[uint64]bool) {
 	t.Evaluations += s.Evaluations
+	t.Runs += s.Runs
 	t.Nontrivial += s.Nontrivial
 	t.Steps += s.Steps
 	t.Switches += s.Switches
@@ -816,7 +835,8 @@ func writeEvidence(prop, tier string, seed uint64, t *summary, fps, efps map[uin
 		"distinct_nontrivial":       len(fps),
 		"rule":                      pi.rule,
 		"samples":                   samples,
-		"nontrivial_runs":           t.Nontrivial,
+		"nontrivial_items":          t.Nontrivial,
+		"simulated_runs":            t.Runs,
 		"distinct_event_orders":     len(efps),
 		"scheduler_decisions":       t.Steps,
 		"context_switches":          t.Switches,
